@@ -2,18 +2,17 @@
 (* Exhaustive check of the reference's theorems over a bounded VALUE domain, and emission of one
    test vector per value (JSON line on stdout) for the codec-vectors driver.
 
-   env: CODEC_TIER = quick | thorough, CODEC_SEED = integer (pseudo-random nesting chains),
-        CODEC_EMIT = 1 to print vectors.
 
    State space: <<0,0>> -> <<a,0>> (bucket) -> <<a,b>> (value number (a-1)*BS+b of the domain), so
    that TLC's workers share the values; every <<a,b>> state is one value with every theorem
    evaluated on it. *)
 EXTENDS ValueCodec, TLC, Json, IOUtils, SequencesExt
 
-Tier == IOEnv.CODEC_TIER
-Seed == atoi(IOEnv.CODEC_SEED) % 1000
-Emit == IOEnv.CODEC_EMIT = "1"
-Thorough == Tier = "thorough"
+\* Thorough: the larger domain; Seed0: seed of the pseudo-random nesting chains; Emit: print the vectors;
+\* Part: "all" or one slice of the domain (development).  They are CONSTANTS (set in the .cfg, which
+\* codec_checks.py writes per run) so that TLC evaluates the domain once, as a constant.
+CONSTANTS Thorough, Seed0, Emit, Part
+Seed == Seed0 % 1000
 
 --------------------------------------------------------------------------------
 (* Leaves *)
@@ -74,7 +73,8 @@ Ids4 == <<<<0, 0, 0, 0>>, <<1, 0, 0, 0>>, <<252, 0, 0, 0>>, <<255, 255, 255, 255
 \* entry sets over 4 keys: empty, singletons, pairs, one triple (thorough: all value combinations on pairs)
 EntrySets(K) ==
   {{}} \cup {{<<K[i], v>>} : i \in 1..4, v \in VSet3}
-  \cup (IF Thorough THEN {{<<K[i], v>>, <<K[j], w>>} : i \in 1..4, j \in 1..4, v \in VSet3, w \in ESet}
+  \cup (IF Thorough THEN {{<<K[i], v>>, <<K[j], w>>} : i \in 1..4, j \in 1..4, v \in ESet, w \in ESet}
+                            \cup {{<<K[i], E8[i]>>, <<K[j], V3[2]>>, <<K[k], E8[4 + k]>>} : i \in 1..4, j \in 1..4, k \in 1..4}
         ELSE {{<<K[i], V3[1 + (i % 3)]>>, <<K[j], V3[1 + (j % 3)]>>} : i \in 1..4, j \in 1..4}
              \cup {{<<K[i], V3[2]>>, <<K[j], E8[i + j]>>} : i \in 1..4, j \in 1..4})
   \cup {{<<K[1], V3[1]>>, <<K[2], V3[2]>>, <<K[3], V3[3]>>}, {<<K[i], E8[i]>> : i \in 1..4}}
@@ -89,7 +89,9 @@ Vecs == {VVec(<<>>)} \cup {VVec(<<x>>) : x \in ESet} \cup {VVec(<<x, y>>) : x \i
 Somes == {VSome(x) : x \in ESet \cup VSet3} \cup {VSome(VSome(VNone)), VSome(VSome(VSome(VInt("U8", <<7>>))))}
 Level1 == Maps \cup Sets \cup Structs \cup Enums \cup Vecs \cup Somes
 
-L1Reps == {VSome(E8[2]), VVec(<<>>), VVec(<<VNone, E8[2]>>), VBytes(<<1, 2, 3>>), VMap("U8", {}),
+L1Sample == LET q == SetToSeq(Level1) IN {q[i] : i \in {j \in 1..Len(q) : j % 25 = 0}}     \* thorough: every 25th level-1 value as well
+L1Reps == (IF Thorough THEN L1Sample ELSE {}) \cup
+          {VSome(E8[2]), VVec(<<>>), VVec(<<VNone, E8[2]>>), VBytes(<<1, 2, 3>>), VMap("U8", {}),
            VMap("U16", {<<<<254, 0>>, V3[3]>>}), VMap("String", {<<<<97>>, VNone>>}), VSet("U32", {<<252, 0, 0, 0>>}),
            VSet("Uuid", {}), VSet("I16", {<<255, 255>>, <<0, 128>>}), VStruct({}), VStruct({<<Ids4[3], V3[2]>>}),
            VEnum(Ids4[2], VNone), VEnum(Ids4[4], E8[5])}
@@ -98,7 +100,7 @@ Wrappers(r) == {VSome(r), VVec(<<r>>), VVec(<<r, VNone>>), VVec(<<E8[2], r>>), V
                 VMap("String", {<<<<195, 169>>, r>>}), VStruct({<<Ids4[2], r>>}), VStruct({<<Ids4[1], VNone>>, <<Ids4[3], r>>}),
                 VEnum(Ids4[3], r)}
 Level2 == UNION {Wrappers(r) : r \in L1Reps}
-L2Reps == IF Thorough THEN Level2 ELSE UNION {Wrappers(r) : r \in {VVec(<<VNone, E8[2]>>), VMap("U16", {<<<<254, 0>>, V3[3]>>})}}
+L2Reps == IF Thorough THEN LET q == SetToSeq({r \in Level2 : Depth(r) = 3}) IN {q[i] : i \in {j \in 1..Len(q) : j % 8 = 0}} ELSE UNION {Wrappers(r) : r \in {VVec(<<VNone, E8[2]>>), VMap("U16", {<<<<254, 0>>, V3[3]>>})}}
 Level3 == UNION {Wrappers(r) : r \in L2Reps}
 
 --------------------------------------------------------------------------------
@@ -124,11 +126,19 @@ Triples == IF ~Thorough THEN {} ELSE
 Ladder == {ChainOf(Tup([i \in 1..(D - 1) |-> Rnd(D, i)]), 1, ChainLeaf(D)) : D \in 2..40}
 Chains == Uniform \cup Pairs \cup Triples \cup Ladder
 
-Part == IF "CODEC_PART" \in DOMAIN IOEnv THEN IOEnv.CODEC_PART ELSE "all"
 Domain == CASE Part = "leaves" -> Leaves [] Part = "level1" -> Level1 [] Part = "level23" -> Level2 \cup Level3
             [] Part = "chains" -> Chains [] OTHER -> Leaves \cup Level1 \cup Level2 \cup Level3 \cup Chains
-\* the domain is built once (TLC does not cache definitions that depend on IOEnv): register 1 holds it
-ASSUME TLCSet(1, SetToSeq(Domain))
+\* The domain is built once, before the workers start, and kept in TLC register 1 (TLC does not cache
+\* definitions that use RECURSIVE operators).  Touch enumerates every nested set once so that the shared
+\* value is fully normalised (read-only) when the workers read it.
+RECURSIVE Touch(_)
+Touch(v) == CASE v.k \in {"Some", "Enum"} -> Touch(v.v)
+              [] v.k = "Vec" -> \A i \in 1..Len(v.e) : Touch(v.e[i])
+              [] v.k = "Map" -> \A kv \in v.m : Touch(kv[2])
+              [] v.k = "Struct" -> \A kv \in v.f : Touch(kv[2])
+              [] v.k = "Set" -> Cardinality(v.s) >= 0
+              [] OTHER -> TRUE
+ASSUME LET d == SetToSeq(Domain) IN (\A i \in 1..Len(d) : Touch(d[i])) /\ TLCSet(1, d)
 DomSeq == TLCGet(1)
 N == Len(DomSeq)
 BS == 16
